@@ -1,0 +1,54 @@
+//! Verification hook: cooperative scheduling points for deterministic simulation.
+//!
+//! This module only exists when the crate is compiled with `--cfg typstyle_verif`; a normal
+//! build contains none of it and none of the `verif::point` call sites.
+//!
+//! A simulator installs a per-thread callback; the formatter calls [`point`] at its conversion
+//! entry points. Without a callback a point only increments a per-thread step counter.
+
+use std::cell::{Cell, RefCell};
+
+type Callback = Box<dyn FnMut(&'static str)>;
+
+thread_local! {
+    static CALLBACK: RefCell<Option<Callback>> = const { RefCell::new(None) };
+    static STEPS: Cell<u64> = const { Cell::new(0) };
+}
+
+/// Install the callback of the current thread (replacing any previous one).
+pub fn install(cb: Callback) {
+    CALLBACK.with(|c| *c.borrow_mut() = Some(cb));
+}
+
+/// Remove the callback of the current thread.
+pub fn uninstall() {
+    CALLBACK.with(|c| *c.borrow_mut() = None);
+}
+
+/// Number of points passed by the current thread so far.
+pub fn steps() -> u64 {
+    STEPS.with(|s| s.get())
+}
+
+/// A scheduling point. The callback may block (hand the baton to another thread) or unwind
+/// (abandon the current call); it is put back in either case.
+pub fn point(site: &'static str) {
+    STEPS.with(|s| s.set(s.get() + 1));
+    let Some(cb) = CALLBACK.with(|c| c.borrow_mut().take()) else {
+        return;
+    };
+    struct Restore(Option<Callback>);
+    impl Drop for Restore {
+        fn drop(&mut self) {
+            let cb = self.0.take();
+            CALLBACK.with(|c| {
+                let mut slot = c.borrow_mut();
+                if slot.is_none() {
+                    *slot = cb;
+                }
+            });
+        }
+    }
+    let mut guard = Restore(Some(cb));
+    (guard.0.as_mut().unwrap())(site);
+}
